@@ -347,6 +347,12 @@ def cache_extra(p, rng):
             yield "bft - %s %d %d - - list" % (v, rng.choice([0, 1, 2]), rng.choice([0, 1]))
             yield "dfti - %s 1 1 - - list" % v
             yield "bfs - %s 0 1" % v
+        us = p.universes()
+        if us:
+            # membership changes from either side (what a universe-restricted traversal lists depends on them)
+            u, x = rng.choice(us), rng.choice(vs)
+            yield "%s %s %s" % (rng.choice(["uadd", "urem"]), u, x)
+            yield "%s %s %s" % (rng.choice(["vadd", "vrem"]), x, u)
 
 
 class C05(Check):
@@ -388,6 +394,14 @@ class C05(Check):
             c, d = rng.getrandbits(62), rng.getrandbits(62)
             for k in (c - c % 7 + 3, d - d % 7 + 3):
                 lines.append("nbrs %s 1 1 %d" % (v, k + 7 if k % 5 == 2 else k))
+        # traversals and searches RESTRICTED TO A UNIVERSE: what they list depends on membership as well as on links,
+        # and membership changes (from either side) are among the mutations of the histories
+        # (the SAME queries in every audit of a history: an answer remembered before a membership change is asked again)
+        for u in p.universes()[:2]:
+            for v in p.verts()[:4]:
+                lines.append("bft %s %s 1 1 - - list" % (u, v))
+                if rng.random() < 0.3:
+                    lines.append("%s %s %s 0 1" % (rng.choice(["bfs", "dfsr"]), u, v))
         return lines
 
     def history(self, rng, real, length, fresh_at=None):
@@ -404,6 +418,10 @@ class C05(Check):
             do("flag on")
         for _ in range(rng.randint(2, 4)):
             do("universe" if rng.random() < 0.2 else "vertex " + rng.choice(["V", "SV", "FV"]))
+        for u in p.universes():
+            for x in p.verts():
+                if rng.random() < 0.7:
+                    do("uadd %s %s" % (u, x))        # universes start populated
         for _ in range(length):
             cands = list(all_ops(p)) if rng.random() < 0.3 else list(gen.struct_ops(p, classes=("D", "U", "X")))
             cands = [c for c in cands if not c.startswith("vertex V l=")] or cands
